@@ -60,14 +60,15 @@ def make_op(C, opname):
     return C.operator(opname)
 
 
-CHILD_KINDS = ['Const', 'VariableIdentifierWrite', 'VariableIdentifierRead', 'FunctionIdentifier', 'Add', 'Assign', 'RootNode', 'Identical', 'TupleArgs']
+CHILD_KINDS = ['Const', 'VariableIdentifierWrite', 'VariableIdentifierRead', 'FunctionIdentifier', 'Add', 'Assign', 'RootNode', 'Identical', 'TupleArgs', 'Literal']
 # top-level function identifiers: a user name and builtin names whose calls a "smart" evaluator might special-case
 FUNCTION_NAMES = ['x', 'if', 'min', 'contains']
 
 
 def child_node(C, kind, i):
     leaf = lambda j: C.node(C.operator('Const', C.v_int(2000 + j)))
-    if kind == 'Const':
+    if kind in ('Const', 'Literal'):
+        # 'Const' is realised natively as a recording call, 'Literal' as an identifier-free constant (or the failing constant expression 1/0)
         return C.node(C.operator('Const', C.v_int(1000 + i)))
     if kind in ('VariableIdentifierWrite', 'VariableIdentifierRead'):
         return C.node(C.operator(kind, sstr('v%d' % i)))
@@ -435,13 +436,23 @@ def replay_ce(ce):
         want_log = wl
     leaf_fail = None
     ck_arg = ce.get('child_kind', 'Const')
+    lit_fail = None
+    if ck == 'Literal':
+        funcs = {}
+        want_log = []
+        failed = False
+        # a child the path never evaluated has no recorded outcome: natively it is made a failing one (the reference evaluates it, so its error must win)
+        mask = ''.join('1' if outcomes.get(i, 'ERR') == 'ERR' else '0' for i in range(k))
+        ck_arg = 'Literal:' + mask
+        if '1' in mask:
+            lit_fail = mask.index('1')
     if ck in ('VariableIdentifierRead', 'VariableIdentifierWrite'):
         # leaf children make no calls; a failing read is realised by an unbound variable, a write target never fails
         funcs = {}
         want_log = []
         failed = False
         if ck == 'VariableIdentifierRead':
-            mask = ''.join('1' if outcomes.get(i) == 'ERR' else '0' for i in range(k))
+            mask = ''.join('1' if outcomes.get(i, 'ERR') == 'ERR' else '0' for i in range(k))
             ck_arg = 'VariableIdentifierRead:' + mask
             if '1' in mask:
                 leaf_fail = 'unbound%d' % mask.index('1')
@@ -455,7 +466,9 @@ def replay_ce(ce):
         got_log = [n for n, a in out.get('log', []) if n != 'x']
         res_ = out.get('result')
         okk = got_log == want_log
-        if leaf_fail is not None:
+        if lit_fail is not None:
+            okk = okk and bool(res_ and res_[0] == 'Err' and res_[1] == 'DivisionError')
+        elif leaf_fail is not None:
             okk = okk and bool(res_ and res_[0] == 'Err' and res_[1] == 'VariableIdentifierNotFound' and res_[2] == ('String', leaf_fail))
         elif failed and ck == 'TupleArgs':
             okk = okk and bool(res_ and res_[0] == 'Err' and res_[1] == 'CustomMessage')
